@@ -369,27 +369,26 @@ func parseValue(s string) interface{} {
 }
 
 // mergeStyles merges static and bound CSS styles, with bound values taking precedence.
+// Declarations keep their source order: static ones first (a bound value replaces the
+// static value in place), then bound declarations that have no static counterpart.
 func (v *Vue) mergeStyles(staticStyle, boundStyle string) string {
-	// Parse both styles into maps
-	staticMap := parseStyleMap(staticStyle)
-	boundMap := parseStyleMap(boundStyle)
-
-	// Merge: bound values override static ones
-	for k, v := range boundMap {
-		staticMap[k] = v
+	decls := parseStyleDecls(staticStyle)
+	for _, d := range parseStyleDecls(boundStyle) {
+		decls = setStyleDecl(decls, d.key, d.val)
 	}
-
-	// Rebuild style string
-	var styles []string
-	for k, v := range staticMap {
-		styles = append(styles, k+":"+v+";")
-	}
-	return strings.Join(styles, "")
+	return styleDeclsString(decls)
 }
 
-// parseStyleMap parses a CSS style string into a map of properties to values.
-func parseStyleMap(style string) map[string]string {
-	result := make(map[string]string)
+// styleDecl is a single CSS declaration (property: value).
+type styleDecl struct {
+	key string
+	val string
+}
+
+// parseStyleDecls parses a CSS style string into its declarations in source order.
+// A property that is declared twice keeps its first position and its last value.
+func parseStyleDecls(style string) []styleDecl {
+	var result []styleDecl
 	if style == "" {
 		return result
 	}
@@ -407,9 +406,29 @@ func parseStyleMap(style string) map[string]string {
 		if len(kv) == 2 {
 			key := strings.TrimSpace(kv[0])
 			val := strings.TrimSpace(kv[1])
-			result[key] = val
+			result = setStyleDecl(result, key, val)
 		}
 	}
 
 	return result
+}
+
+// setStyleDecl updates the declaration of key in place, or appends it.
+func setStyleDecl(decls []styleDecl, key, val string) []styleDecl {
+	for i := range decls {
+		if decls[i].key == key {
+			decls[i].val = val
+			return decls
+		}
+	}
+	return append(decls, styleDecl{key: key, val: val})
+}
+
+// styleDeclsString rebuilds a style attribute value from declarations.
+func styleDeclsString(decls []styleDecl) string {
+	var sb strings.Builder
+	for _, d := range decls {
+		sb.WriteString(d.key + ":" + d.val + ";")
+	}
+	return sb.String()
 }
